@@ -116,3 +116,11 @@ claim("C22", "property-based testing: real `ord wallet send/burn/split` commands
 claim("C23", "property-based testing: real node-funded `ord wallet` commands over generated mixed wallets, observed at the mock node's mempool and lock set",
       "Generated wallets mix cardinal, inscribed, runic and inscribed+runic outputs (non-cardinal ones more valuable, the mock funds largest-first); send, send/burn runes, mint, split and offer create must produce transactions whose inputs are cardinal or the command's own subject, and must leave every other inscribed or runic output locked.",
       "mock fundrawtransaction stands in for bitcoind coin selection; mockcore feature `verif` gives lockunspent Bitcoin Core's semantics; sweep is not driven.")
+
+claim("C21", "property-based testing: real `ord wallet batch` over generated batch files and wallets, audited against the index after mining commit and reveal",
+      "Generated batch files (all four modes, 1..5 inscriptions, parents, postage, metadata, delegates, destinations, satpoints, reinscription, optional etching with terms) run through the real CLI; reported ids, satpoints, destinations, parents, delegates, content, premine location and rune entry are compared with what the index holds once both transactions are mined; the commit may spend no inscribed or runic output.",
+      "`sat:` targets are not generated (no sat index in the wallet test bed); metadata/gallery contents not compared; the index is the reference for what the indexer assigns, as the property states.")
+
+claim("C24", "property-based testing: generated PSBTs (well-formed offers and single-clause perturbations) presented to the real `ord wallet offer accept`, judged by a reference acceptance predicate",
+      "Acceptance (exit 0 or a broadcast) is allowed only if the harness' own evaluation of every clause holds: one wallet input, exactly the named inscription, no runes, balance change equal to --amount, all other inputs signed; the broadcast transaction must be the offered one with the other inputs' signatures unchanged.",
+      "mock node signer/finaliser semantics (fixed witness, existing signatures discarded); mockcore feature `verif` makes simulaterawtransaction use the node's own network.")
